@@ -55,9 +55,9 @@ P = {
    "RESTRICTED CLAIM. Wire tap over closed-loop runs: every datagram crossing the simulated network in either direction (legitimate traffic, 400 adversarial datagrams per run with type codes swept across runs, forged ACK/NAK lists with wide ranges, and a systematic corruption schedule of every known type code truncated to every length 0..24) is decoded by the real decoders and by an in-tree reference codec written from the layouts in the statement, and the results compared (type, data/R bit, SRT ACK number, bounded NAK expansion, SRTLA ACK list, keepalive timestamp and telemetry); every REG1/REG2/keepalive frame the sender emits is checked against its exact layout; decoder panics are violations.",
    "The property is a statement about pure functions of a byte string; deterministic simulation decides only the datagrams that cross the simulated network and its corruptor. Totality over all byte strings of length 0..1500 is sampled, not enumerated - enumeration/fuzzing would be a different technique family and was not substituted. NAK entries are taken to start after a 4-byte header, as in the repository's decoder, builders and tests.",
    "§P-C15"),
- "C19": (True, "L", "fault_enumeration",
+ "C19": (True, "LW", "fault_enumeration",
    "Simulation of reloads mid-stream through the mirrored SIGHUP arm (real analyze_ip_reload on a real temp file: missing / empty / whitespace / garbage / mixed / duplicated / IPv4+IPv6) and the real apply_connection_changes at the next tick, 1..5 reloads per run with overlapping, disjoint and equal address sets, duplicate initial addresses and injected bind failures; exact snapshots around the apply call are compared: survivors (identity, socket, full Debug state, order), removed links (list, I/O map, NAK-attribution lookups for numbers they carried), additions (once, in order), routing choice. Seeded sampling of file contents and reload sequences.",
-   "Trusted: a parsable address is what std::net::IpAddr::from_str accepts after trimming; an IPv6 uplink towards the IPv4 receiver cannot be created here and may be absent after a reload.",
+   "Trusted: a parsable address is what std::net::IpAddr::from_str accepts after trimming; an IPv6 uplink towards the IPv4 receiver cannot be created here and may be absent after a reload. One run in six executes the real run_sender_with_config (engine W) with SIGHUP raised through hook H11 and the file rewritten mid-stream: on the wire, every new address gets exactly one socket by the next housekeeping tick, a removed link's socket never sends again, a surviving link that hears the receiver is neither re-created nor falls silent, no socket is bound for an unlisted address, and a refused file changes nothing.",
    "§P-C19"),
  "C03": (True, "KL", "exploration",
    "Timed event histories on the real core (1..4 links; REG3 / REG_ERR / tear-downs, RTT baselines, backlogs, earned and cumulative ACKs, NAKs, echoes, weak / loss-degraded / CC-target stamps, bitrates, clock advances around every boundary, configuration and guard toggles, any previous index) with routing decisions throughout; at every decision an independent usable set (REG3 since last reset, connected, heard within the timeout by the monitor's own stamps, computed from the events alone) must imply that the real select_connection_idx returns a valid index, in both modes and with every gate combination reached. Seeded sampling of histories; reach is reported as decisions with gates engaged / every link under some gate / single usable link.",
